@@ -197,7 +197,7 @@ class Gen:
 
     def new_objective(self):
         r = self.r
-        kinds = ['OMakespan', 'OStartLatest', 'OStartEarliest', 'OGreatestStart', 'OFlowtime', 'OPriorities']
+        kinds = ['OMakespan', 'OStartLatest', 'OStartEarliest', 'OGreatestStart', 'OFlowtime', 'OPriorities', 'ORaw', 'ORaw']
         if self.workers or self.cumuls:
             kinds += ['OMaxUtilization', 'OMinCost', 'OFlowtimeSingle']
         if self.buffers:
@@ -205,7 +205,9 @@ class Gen:
         if self.inds:
             kinds += ['OMinIndicator', 'OMaxIndicator', 'OMinIndicator']
         k = r.choice(kinds)
-        if k in ('OMakespan', 'OStartEarliest', 'OPriorities'):
+        if k == 'ORaw':
+            o = (k, N(self.nexti), self.ind_term(), Z(r.choice([1, 2, 3])), r.random() < 0.3)
+        elif k in ('OMakespan', 'OStartEarliest', 'OPriorities'):
             o = (k,)
         elif k in ('OStartLatest', 'OGreatestStart', 'OFlowtime'):
             o = (k, self.task_subset())
